@@ -405,3 +405,40 @@ reg(
                 "key-collision defects hide at indices and names the suite never tries."),
     level_note="The reference step function (refm::step) is trusted.",
 )
+
+reg(
+    "C04",
+    title="scoping: innermost binding wins, assignments persist, caller data untouched",
+    level="exploration",
+    technique="runtime monitoring against a reference interpreter: programs over a 3-name alphabet (each name at once caller datum, assigned variable, loop variable, counter and include argument) with a state probe (envdump monitor tag: try_get / get / roots / counter of every name, plus a guarded output read) after every statement; caller-data immutability monitor",
+    design_ref="DESIGN.md §5 C04",
+    rule=("cases: all programs with at most N binding statements (quick N = 3: 6616 programs, thorough N = 4: ~161000) over the grammar {assign x, capture x, increment x, decrement x (x in a,b,c), include 'pa', include 'pa' a: .., include 'pb' b: .., c: .., "
+          "for x in (1..2) {..}, if true {..}} with a probe before, inside and after every construct; a seeded sample of the next two sizes; random programs of up to 14 statements nested to depth 4 with captures containing statements and generated partials, on three data objects. "
+          "The whole output trace is compared with the reference interpreter; the data object's strict dump must be unchanged. distinct = distinct (program, partials, data); non-trivial = the program has at least one binding statement."),
+    exhaustive=True,
+    profiles={"quick": ["checked"], "thorough": ["checked"]},
+    floor={"quick": 30000, "thorough": 500000},
+    assumptions=["values printed by probes longer than 40 characters are compared by length and hash (digest monitor filter)", "assigning from an undefined variable and undefined include arguments are outside the statement and not generated"],
+    level_text=("Bounded-exhaustive program enumeration with a full state trace per program and an independent scope-chain model as oracle. Right level: scoping defects need a specific combination of shadowing constructs and a read at the "
+                "right program point; enumerating small programs with reads everywhere reaches all of them up to the bound."),
+    level_note="The reference interpreter (harness/src/refm.rs) is trusted; its scope chain is the one the statement describes.",
+)
+
+reg(
+    "C08",
+    title="include shares the caller's scope; render isolates the partial",
+    level="exploration",
+    technique="runtime monitoring against a reference interpreter: generated caller + 1..3 partials (nested, no recursion) using every include/render argument form, stateful constructs and interrupts, with state probes before/after every tag and inside the partials; missing and broken partials on executed and dead paths",
+    design_ref="DESIGN.md §5 C08",
+    rule=("cases: seven fixed scenarios (one per clause of the statement) plus generated scenarios: caller and 1..3 partials over names {a,b,c} built from assign, capture, increment/decrement, cycle, ifchanged, for with break/continue, if, "
+          "include (with/without arguments) and render (plain arguments, with..as, for..as), partial names literal and through variables, break/continue at the top level of partials, a missing name and a syntactically broken partial on executed and on dead paths. "
+          "The output trace (probes print every name's try_get/get/roots/counter at every point) must equal the reference interpreter's, and errors must occur exactly where the reference says. distinct = distinct scenario; "
+          "non-trivial = the scenario is inside the specified behaviour (unspecified ones are counted separately and not compared)."),
+    profiles={"quick": ["checked"], "thorough": ["checked"]},
+    floor={"quick": 30000, "thorough": 500000},
+    assumptions=["isolation of increment/decrement counters across render is NOT demanded (C18: counters are shared by all layers)",
+                 "a top-level break in a partial run by render..for, an interrupt outside any loop, and a render alias that is also an argument are unspecified: counted, not compared"],
+    level_text=("Generated multi-partial programs with full state traces and an independent model of the two scoping disciplines. Right level: leaks between caller and partial need a particular combination of tag form, argument, "
+                "assignment and read position."),
+    level_note="The reference interpreter is trusted.",
+)
